@@ -32,6 +32,7 @@ INVARIANTS
   Inv_C07_OwnerTally
   Inv_C13_QueueComplete
 PROPERTIES
+  Act_SetupOK
   Act_C07_RequestEscrow_ModF4
   Act_C13_QueueSound_ModF20
   Act_C13_NoHalt
